@@ -433,6 +433,17 @@ def _probes():
     add("quaternion_schur_unified(aed)", lambda A: sc.quaternion_schur_unified(A, variant="aed", max_iter=10), lambda c: [Q(c["Sq"])])
     add("quaternion_schur_unified(ds)", lambda A: sc.quaternion_schur_unified(A, variant="ds", max_iter=10), lambda c: [Q(c["Sq"])])
     add("quaternion_schur_experimental", lambda A: sc.quaternion_schur_experimental(A, max_iter=10), lambda c: [Q(c["Sq"])])
+    for nm_, f_, kw_ in (("quaternion_schur", sc.quaternion_schur, {}),
+                         ("quaternion_schur_pure", sc.quaternion_schur_pure, {}),
+                         ("quaternion_schur_pure_implicit", sc.quaternion_schur_pure_implicit, {}),
+                         ("quaternion_schur_unified(rayleigh)", sc.quaternion_schur_unified, {"variant": "rayleigh"}),
+                         ("quaternion_schur_unified(aed)", sc.quaternion_schur_unified, {"variant": "aed"}),
+                         ("quaternion_schur_unified(ds)", sc.quaternion_schur_unified, {"variant": "ds"}),
+                         ("quaternion_schur_experimental", sc.quaternion_schur_experimental, {})):
+        add(nm_ + "[return_diagnostics]",
+            (lambda A, f=f_, kw=kw_: f(A, max_iter=6, return_diagnostics=True, **kw)), lambda c: [Q(c["Sq"])])
+    add("NewtonSchulz.compute[residual histories]",
+        lambda A: s.NewtonSchulzPseudoinverse(max_iter=4, tol=0.0, compute_residuals=True).compute(A), lambda c: [Q(c["A"])])
     add("tensor_unfold", lambda T: tn.tensor_unfold(T, 1), lambda c: [Q(c["T3"])])
     add("tensor_fold", lambda M, shp: tn.tensor_fold(M, 1, shp), lambda c: [tn.tensor_unfold(Q(c["T3"]), 1).copy(), tuple(c["T3"].shape[:3])])
     add("tensor_frobenius_norm", tn.tensor_frobenius_norm, lambda c: [Q(c["T3"])])
@@ -464,7 +475,7 @@ def probes():
     return _PROBE_CACHE["p"]
 
 
-N_PROBES = 96   # upper bound used by the generator; indices are taken modulo the real table length
+N_PROBES = 99   # upper bound used by the generator; indices are taken modulo the real table length
 
 
 @st.composite
@@ -515,8 +526,15 @@ def mutation_cases(draw, tier):
         b[0, 0, 0] = 1.0
     Tall = A if m >= k else np.ascontiguousarray(np.swapaxes(A, 0, 1))
     T3 = draw(gen.qarray(2 * 3, 2, "generic"))[0].reshape(2, 3, 2, 4)
-    img = np.abs(draw(gen.qarray(3, 4, "generic"))[0]) / 4.0
+    ih, iw = draw(st.integers(2, 5)), draw(st.integers(2, 5))
+    img = np.abs(draw(gen.qarray(ih, iw, "generic"))[0]) / 4.0
     psf = np.array([[0.0, 0.125, 0.0], [0.125, 0.5, 0.125], [0.0, 0.125, 0.0]])
+    if draw(st.booleans()):
+        # any kernel shape, including even extents and kernels larger than the image (documented: "pad/crop")
+        kh, kw = draw(st.integers(1, 7)), draw(st.integers(1, 7))
+        psf = np.abs(draw(gen.qarray(kh, kw, "int"))[0][..., 0]) + np.abs(draw(gen.qarray(kh, kw, "sparse"))[0][..., 1])
+        psf[kh // 2, kw // 2] += 1.0
+        psf = psf / 16.0
     return {"probe": draw(st.integers(0, N_PROBES - 1)), "struct": struct, "layout": draw(st.sampled_from(["C", "F", "strided"])), "A": A, "B": B, "Sq": Sq, "H": H, "H2": H, "Sys": Sys, "b": b,
             "Tall": np.ascontiguousarray(Tall), "T3": T3, "img": img, "psf": psf, "seed": draw(gen.seeds())}
 
@@ -630,6 +648,7 @@ def check_mutation(case):
         out.label("raised:" + type(e).__name__)
         out.true(f"{name}:arguments untouched (even when raising)", _hash_args(args) == h0, "argument modified before raising")
         return out
+    c1 = canon(r1)       # taken NOW: a result that aliases state shared with later calls must not change afterwards
     out.true(f"{name}:caller's arrays bit-identical after the call", _hash_args(args) == h0,
              "an array argument was modified in place")
     args2 = build(case)
@@ -637,7 +656,9 @@ def check_mutation(case):
     with contextlib.redirect_stdout(io.StringIO()):
         ok, r2 = out.call(f"{name}:second call", fn, *args2)
     if ok:
-        out.true(f"{name}:repeating the call repeats the result", canon(r1) == canon(r2), "results differ bit-wise")
+        out.true(f"{name}:repeating the call repeats the result", c1 == canon(r2), "results differ bit-wise")
+        out.true(f"{name}:a returned value is not changed by later calls", canon(r1) == c1,
+                 "the value returned by the first call changed when the call was repeated (shared mutable state)")
     # same buffers, new contents: results must depend on the VALUE of the arguments, not on object identity
     case2 = _variant(case)
     args_new = build(case2)
